@@ -2,6 +2,7 @@ package main
 
 import (
 	"fmt"
+	"math"
 	"sort"
 	"strconv"
 	"strings"
@@ -29,6 +30,14 @@ type serr struct{ tags []string } // NOT comparable: == on two of these panics a
 
 func (e serr) Error() string { return "serr" + strings.Join(e.tags, ",") }
 
+// fs is a comparable struct for which == does not imply identical bits.
+type fs struct {
+	f float64
+	n int
+}
+
+var negZero = math.Copysign(0, -1)
+
 // desc renders a value (as sync.Map sees it: an interface value) canonically.
 func desc(x any) string {
 	switch v := x.(type) {
@@ -38,6 +47,11 @@ func desc(x any) string {
 		return "int:" + strconv.Itoa(v)
 	case string:
 		return "string:" + strconv.Quote(v)
+	case float64:
+		// bit-exact: +0 and -0 are == but not the same value, NaN is not == to itself
+		return fmt.Sprintf("float64:%v[%#x]", v, math.Float64bits(v))
+	case fs:
+		return fmt.Sprintf("fs{%v[%#x],%d}", v.f, math.Float64bits(v.f), v.n)
 	case *cell:
 		if v == nil {
 			return "*cell:nil"
@@ -246,6 +260,13 @@ func (pm *pairMaps[V]) step(r *vkit.Report, op mop) (sig, what string, present [
 			contents = append(contents, fmt.Sprintf("%d=%s", k, strings.TrimSuffix(strings.TrimPrefix(lr, "("), ", true)")))
 		}
 	}
+	// the same contents through Range on both (bit-exact rendering of the values)
+	rx, rpx, _ := applyX(&pm.x, mop{Kind: opRange}, pm.pool)
+	rr, rpr, _ := applyR(&pm.ref, mop{Kind: opRange}, pm.pool)
+	r.Eval(1)
+	if outcome(rx, rpx) != outcome(rr, rpr) {
+		return "map-state-differs", fmt.Sprintf("after %s on xsync.Map[int,%s]: Range gives %s, sync.Map's Range gives %s", d, pm.name, outcome(rx, rpx), outcome(rr, rpr)), present
+	}
 	// a Range that stopped early: every pair it visited is in the map (as it was before the op,
 	// which a Range does not change)
 	if op.Kind == opRangeStop && px == nil {
@@ -285,7 +306,9 @@ var (
 		vrun[string]{"string", []string{"", "a", "b"}},
 		vrun[*cell]{"*cell", []*cell{nil, cellA, cellB}},
 		vrun[error]{"error", []error{nil, perrA, perrB, verr{1}, verr{2}, serr{[]string{"x"}}, serr{[]string{"y"}}}},
-		vrun[any]{"any", []any{nil, 0, 7, "", "s", cellA, (*cell)(nil), []int{1}, []int{2}, verr{1}}},
+		vrun[any]{"any", []any{nil, 0, 7, "", "s", cellA, (*cell)(nil), []int{1}, []int{2}, verr{1}, 0.0, negZero, math.NaN(), fs{negZero, 0}, fs{0, 0}}},
+		vrun[float64]{"float64", []float64{0, negZero, 1.5, math.NaN()}},
+		vrun[fs]{"struct{float64;int}", []fs{{0, 0}, {negZero, 0}, {1.5, 1}, {math.NaN(), 2}, {0, 1}}},
 	}
 )
 
